@@ -96,10 +96,11 @@ CLAIMED = {
              'lose nothing, underflow returns the next stream byte without consuming it, buffer invariant kept; loop-free, all buffer states — quick tier '
              'with the buffer constant scaled 65536->64 (labelled bounded), thorough tier with the real constant. (2) CSV symbol column, BOUNDED: for every '
              'symbol of at most 4 (thorough 6) bytes (all values except NUL/CR/LF) and every single-character delimiter, the real WriteStreamCSV::outputSymbol '
-             'followed by the real ReadStreamCSV::nextElement returns the same symbol (RFC 4180 and plain). NOT covered: numbers/floats/records/ADTs, '
+             'followed by the real ReadStreamCSV::nextElement returns the same symbol (RFC 4180 and plain); and a symbol nested in a record (outputSymbol(fieldValue=false) -> nextElement -> '
+             'ReadStream::readQuotedSymbol) is read back unchanged. NOT covered: numbers/floats/records/ADTs, '
              'headers, multi-line fields, JSON, SQLite, zlib itself.',
         note='bounded stand-ins are labelled bounded in evidence and never counted as proved; zlib assumed faithful; std::streambuf/std::string/ostream '
-             'replaced by scaffolds; one genuine defect found and fixed (97345cb34)',
+             'replaced by scaffolds; two genuine defects found and fixed (97345cb34, a6d1fcd5a)',
         category='other',
         technique='CBMC function contracts (DFCC) on extracted C++ with ghost file model and ghost index; bounded unwinding for the string round trip (bounded stand-in)',
         design='DESIGN.md §3 C17, §8'),
